@@ -49,7 +49,7 @@ theorem bundle_control_recount (m : Model) (b b' : Bundle Vals) (h : bundleBuild
       · cases h
       · simp only [Except.ok.injEq] at h
         subst h
-        refine ⟨rfl, rfl, rfl, _, rfl, ?_, ?_, ?_, ?_, ?_⟩ <;> simp [recountBundle]
+        refine ⟨rfl, rfl, rfl, _, rfl, ?_, ?_, ?_, ?_, ?_⟩ <;> cases b.control <;> simp [recountBundle]
 
 /-- **file control = recount**: cash letter count, record count, item count, amount -/
 theorem file_control_recount (m : Model) (f f' : File Vals) (h : fileCreate m f = .ok f') :
